@@ -1,8 +1,8 @@
 from .model import SCHEMA, Spec
-from . import c_dimension, c_prefix, c_unit, c_quantity, c_registry, c_lemmas, c_conversions, c_measurement
+from . import c_dimension, c_prefix, c_unit, c_quantity, c_registry, c_lemmas, c_conversions, c_measurement, c_level
 
 CONTRACTS = {}
-for _m in (c_dimension, c_prefix, c_unit, c_quantity, c_registry, c_lemmas, c_conversions, c_measurement):
+for _m in (c_dimension, c_prefix, c_unit, c_quantity, c_registry, c_lemmas, c_conversions, c_measurement, c_level):
     CONTRACTS.update(_m.CONTRACTS)
 SPEC = Spec()
 
